@@ -254,8 +254,41 @@ def classify(results, unit):
     return obl, dis, creq, cfired, failed, und
 
 
+def run_native_unit(unit, prop, rundir):
+    """kind=native: a finite domain enumerated completely by a compiled C program (used where every installed
+    solver fails, e.g. 32-bit multiply/divide identities); it must print 'OK n=<cases>'"""
+    t0 = time.time()
+    res = {"id": unit["id"], "unit": unit["id"], "enforce": None, "replaced": [], "bound": unit.get("bound"), "status": "undecided", "reason": None,
+           "obligations": 1, "discharged": 0, "canaries_required": 0, "canaries_fired": 0, "failed": [], "backend": "native exhaustive enumeration (gcc -O2)",
+           "solver_s": None, "loops": [], "source_sha256": {}, "functions": [], "samples": [], "named": 0}
+    src = os.path.join(VERIF, "props", prop, unit["harness"])
+    exe = os.path.join(rundir, unit["id"] + ".exe")
+    rc, out, _ = run(["gcc", "-O2", "-o", exe, src], 120, mem_gb=16)
+    if rc != 0:
+        res["reason"] = "native unit did not compile: " + out[-300:]
+    else:
+        rc, out, dt = run([exe], unit.get("timeout", 600), mem_gb=16)
+        res["solver_s"] = round(dt, 2)
+        m = re.search(r"OK n=(\d+)", out or "")
+        if rc == 0 and m:
+            res.update(status="holds", discharged=1, named=1, samples=[(unit["id"], "exhaustive native enumeration of %s cases: %s" % (m.group(1), unit.get("what", "")))])
+        elif rc == "timeout":
+            res["reason"] = "native unit timeout"
+        else:
+            res.update(status="violation", failed=[{"property": unit["id"], "description": "native exhaustive check failed: " + (out or "")[-200:], "location": {}, "inputs": {}}])
+        try:
+            os.remove(exe)
+        except OSError:
+            pass
+    res["checker_cmd"] = "gcc -O2 %s && ./a.out" % os.path.relpath(src, VERIF)
+    res["wall_s"] = round(time.time() - t0, 2)
+    return res
+
+
 def run_unit(unit, prop, tier, cfg, rundir, extra_defs=(), tag=""):
     """returns a result dict; never raises"""
+    if unit.get("kind") == "native":
+        return run_native_unit(unit, prop, rundir)
     t0 = time.time()
     uid = unit["id"] + (("@" + tag) if tag else "")
     if tag.startswith("kf-"):
